@@ -5,6 +5,7 @@ import (
 	"bytes"
 	"fmt"
 	"log/slog"
+	"os"
 	"runtime"
 	"testing"
 	"time"
@@ -188,5 +189,93 @@ func gen1(t *rapid.T) Case {
 var prop = stats.Prop(R, "stream", gen1, check)
 
 func TestStream(t *testing.T) { rapid.Check(t, prop) }
+
+// Independent handlers segmenting independent streams at the same time.
+func genPar(t *rapid.T) Case {
+	c := gen1(t)
+	c.Procs, c.YieldMode = 0, 0
+	if len(c.Stream.Bytes()) > 20000 {
+		c.Stream = gen.AnyStream(t, gen.Adversarial, 8, 60)
+	}
+	return c
+}
+
+var propParallel = stats.ParallelProp(R, "parallel", genPar, check, 4)
+
+func TestParallel(t *testing.T) { rapid.Check(t, propParallel) }
+
+// Long silence: the source stops sending for several seconds (at a message boundary, inside junk or
+// inside a frame) and then continues; nothing may be lost and the output must not be closed early.
+type SilenceCase struct {
+	Stream  gen.Stream `json:"stream"`
+	PauseAt int        `json:"pause_at"`
+	PauseMs int        `json:"pause_ms"`
+	InCap   int        `json:"in_cap"`
+}
+
+func checkSilence(c SilenceCase, o *stats.Obs) error {
+	input := c.Stream.Bytes()
+	res := drive.Run(drive.NewHandler(slog.LevelInfo), input, drive.Options{InCap: c.InCap, OutCap: 1, Timeout: 60 * time.Second,
+		ProducerPause: func(i int) {
+			if i == c.PauseAt {
+				time.Sleep(time.Duration(c.PauseMs) * time.Millisecond)
+			}
+		}})
+	if res.Panic != "" || res.TimedOut || !res.Closed {
+		o.Key = "not-closed"
+		return fmt.Errorf("HandleMessages did not finish normally (panic %q, timed out %v, closed %v) with a %d ms silence before byte %d", res.Panic, res.TimedOut, res.Closed, c.PauseMs, c.PauseAt)
+	}
+	var cat []byte
+	for _, m := range res.Msgs {
+		cat = append(cat, m.RawData...)
+	}
+	if !bytes.Equal(cat, input) {
+		o.Key = "not-lossless-after-silence"
+		return fmt.Errorf("with a %d ms silence of the source before byte %d of %d the delivered bytes differ from the input: delivered %d bytes in %d messages\n input %x", c.PauseMs, c.PauseAt, len(input), len(cat), len(res.Msgs), input)
+	}
+	o.NonTrivial = len(res.Msgs) >= 2
+	o.Class("long-silence")
+	return nil
+}
+
+func silenceMs() int {
+	if os.Getenv("VERIF_TIER") == "thorough" {
+		return 12000
+	}
+	return 5500
+}
+
+func genSilence(t *rapid.T) SilenceCase {
+	c := SilenceCase{Stream: gen.CleanStream(t, 5, 40, false), InCap: rapid.SampledFrom([]int{0, 16}).Draw(t, "inCap"), PauseMs: silenceMs()}
+	c.Stream.Segs = append(c.Stream.Segs, gen.Segment{Kind: "valid", Data: gen.ValidFrame(t, 40)})
+	// pause position: mostly right after a complete frame (the handler then waits with nothing collected),
+	// sometimes after junk or in the middle of a segment
+	c.Stream.Segs = append([]gen.Segment{{Kind: "valid", Data: gen.ValidFrame(t, 40)}}, c.Stream.Segs...)
+	off := 0
+	var afterFrame, others []int
+	for i, g := range c.Stream.Segs {
+		if len(g.Data) >= 2 {
+			others = append(others, off+len(g.Data)/2)
+		}
+		off += len(g.Data)
+		if i < len(c.Stream.Segs)-1 {
+			if g.Kind == "valid" {
+				afterFrame = append(afterFrame, off)
+			} else {
+				others = append(others, off)
+			}
+		}
+	}
+	cands := afterFrame
+	if rapid.IntRange(0, 3).Draw(t, "otherPlace") == 2 {
+		cands = others
+	}
+	c.PauseAt = rapid.SampledFrom(cands).Draw(t, "pauseAt")
+	return c
+}
+
+var propSilence = stats.Prop(R, "long-silence", genSilence, checkSilence)
+
+func TestLongSilence(t *testing.T) { rapid.Check(t, propSilence) }
 
 func TestReplay(t *testing.T) { R.Replay(t) }
